@@ -64,3 +64,9 @@ C("C13",
   "Trusted: SliceReader as the model (its own panics are reported too). After a zero-length read before the real end (std::io::Read's EOF signal) adapter errors are not judged; successful returns still must match.",
   "history + executable-model lock-step monitor with conservation check; ASan/Miri on a sample",
   "DESIGN.md §5 C13")
+
+C("C12",
+  "Generated values of every serializable type (primitive integers incl. the variable-length size encoding at every 7-bit boundary, options, tuples, arrays, vectors, strings, maps, sets, nested compositions; base/extension field elements incl. boundary and chain-produced representations; digests of all six hashers; ProofOptions over the constructor space; TraceInfo incl. 255 columns, aux segments with 0 random elements, 65535 metadata bytes; Context; Commitments; Queries with 1/255 queries x 1/255 columns; OodFrame with/without Lagrange frame; FriProof with 0..max layers and up to 256 remainder coefficients) are encoded and decoded through SliceReader, Cursor and ReadAdapter (random chunking) with trailing garbage: decoded == original, bytes consumed == bytes written, and the components' parse() returns the original content. Whole prover-generated proofs are round-tripped in C01.",
+  "Trusted: each type's own PartialEq; FRI proofs come from the real FriProver.",
+  "round-trip monitor over three reader implementations with exact-consumption accounting",
+  "DESIGN.md §5 C12")
